@@ -20,25 +20,25 @@ Definition wf_msg (m : msg) : bool :=
 Section All.
 Variable hash : str -> str.
 
-Theorem roundtrip_all : forall (bs later : blobs) (m : msg),
-  wf_msg m = true -> spec_ok m (roundtrip hash bs m later) = true.
+Theorem roundtrip_all : forall (faults : list bool) (bs later : blobs) (m : msg),
+  wf_msg m = true -> spec_ok m (roundtrip hash faults bs m later) = true.
 Proof.
-  intros bs later [hs [b|st ks]] W; unfold wf_msg in W; cbn [m_body m_hdrs] in W.
+  intros faults bs later [hs [b|st ks]] W; unfold wf_msg in W; cbn [m_body m_hdrs] in W.
   - apply single_roundtrip. destruct hs; [discriminate | discriminate].
   - apply andb_true_iff in W as [W W3]. apply andb_true_iff in W as [W1 W2].
-    rewrite (multi_result hash bs later hs st ks W1) by (destruct (kept_hdrs hs st); [discriminate | discriminate]).
+    rewrite (multi_result hash faults bs later hs st ks W1) by (destruct (kept_hdrs hs st); [discriminate | discriminate]).
     unfold spec_ok, msg_equiv. cbn [m_body]. rewrite equal_fold_self_lower. cbn [andb].
     now apply kids_equiv_tmap.
 Qed.
 
-Theorem independent_all : forall (bs1 bs2 later1 later2 : blobs) (m : msg),
-  wf_msg m = true -> roundtrip hash bs1 m later1 = roundtrip hash bs2 m later2.
+Theorem independent_all : forall (f1 f2 : list bool) (bs1 bs2 later1 later2 : blobs) (m : msg),
+  wf_msg m = true -> roundtrip hash f1 bs1 m later1 = roundtrip hash f2 bs2 m later2.
 Proof.
-  intros bs1 bs2 l1 l2 [hs [b|st ks]] W; unfold wf_msg in W; cbn [m_body m_hdrs] in W.
+  intros f1 f2 bs1 bs2 l1 l2 [hs [b|st ks]] W; unfold wf_msg in W; cbn [m_body m_hdrs] in W.
   - apply single_independent. destruct hs; [discriminate | discriminate].
   - apply andb_true_iff in W as [W W3]. apply andb_true_iff in W as [W1 W2].
     assert (K : kept_hdrs hs st <> []) by (destruct (kept_hdrs hs st); [discriminate | discriminate]).
-    now rewrite (multi_result hash bs1 l1 hs st ks W1 K), (multi_result hash bs2 l2 hs st ks W1 K).
+    now rewrite (multi_result hash f1 bs1 l1 hs st ks W1 K), (multi_result hash f2 bs2 l2 hs st ks W1 K).
 Qed.
 
 End All.
